@@ -24,7 +24,7 @@ EVIDENCE = dict(
 
 def run(ctx):
     q = ctx.tier == "quick"
-    ctx.extra_prefixes = ["c20"]
+    ctx.extra_prefixes = ["c20", "docs_"]
     ctx.tlc("ParserLoop", "ParserLoop_mc.cfg")
     ctx.tlc("ParserLoop", "ParserLoop_mc_impl.cfg", expect_violation=True)
     ctx.tlc("GraphWalk", "GraphWalk_mc.cfg")
@@ -92,5 +92,5 @@ def split_on(events, name, size):
 
 
 def replay(ctx, rp):
-    ctx.extra_prefixes = ["c20"]
+    ctx.extra_prefixes = ["c20", "docs_"]
     return replay_generic(ctx, rp, ["c02", "replay"])
